@@ -5,6 +5,9 @@ pub mod c02;
 pub mod c08;
 pub mod c09;
 pub mod c10;
+pub mod c14;
+pub mod c15;
+pub mod c16;
 pub mod c17;
 pub mod c18;
 
@@ -16,6 +19,9 @@ pub fn run(ctx: &Ctx) -> Option<(&'static str, &'static str)> {
         "C08" => Some(c08::run(ctx)),
         "C09" => Some(c09::run(ctx)),
         "C10" => Some(c10::run(ctx)),
+        "C14" => Some(c14::run(ctx)),
+        "C15" => Some(c15::run(ctx)),
+        "C16" => Some(c16::run(ctx)),
         "C17" => Some(c17::run(ctx)),
         "C18" => Some(c18::run(ctx)),
         _ => None,
